@@ -61,8 +61,10 @@ type State struct {
 
 var registry = map[string]*Subsystem{}
 
-// atExit functions run when the stream is finished (scratch space outside State.Dir).
+// AtExit registers a cleanup that runs after the last case (scratch kept outside State.Dir).
 var atExit []func()
+
+func AtExit(f func()) { atExit = append(atExit, f) }
 
 func Register(s *Subsystem) { registry[s.Name] = s }
 
